@@ -144,7 +144,12 @@ pub fn make_tokenizer_hist(d: Dictionary, opts: Opts, space_defined: bool) -> Re
                 t = t.ignore_space(true).map_err(|e| e.to_string())?;
             }
         }
-        t.ignore_space(opts.ignore_space).map(|t| t.max_grouping_len(opts.mgl)).map_err(|e| e.to_string())
+        // the two options are independent: they are set in either order
+        if opts.mgl % 3 == 1 {
+            t.max_grouping_len(opts.mgl).ignore_space(opts.ignore_space).map_err(|e| e.to_string())
+        } else {
+            t.ignore_space(opts.ignore_space).map(|t| t.max_grouping_len(opts.mgl)).map_err(|e| e.to_string())
+        }
     }) {
         Ok(Ok(t)) => Ok(t),
         Ok(Err(e)) => Err(format!("ignore_space error: {e}")),
